@@ -19,6 +19,7 @@ RULE = (
     "(1 in 4) the calculate_distance_matrix CLI with the samples spread over 1..3 files given in order; half the cases with the progress option / --progress flag, some with files in oddly named directories (glob characters, spaces, non-ASCII). Non-trivial = n_chunks>=2 with a repeated or out-of-order chunk, or "
     "n_chunks > C(n,2) (partition cases: n_chunks>=2 and n>=3). distinct = distinct case JSON."
     ' Also: a production-size task (1.25 million experiments x 15 samples; thorough: two more) and fixed cases with one interpreter process per chunk.'
+    ' Half the API cases compute with a ThetaHolder subclass that builds its samples on request; a third of the small CLI cases name the first file of samples twice.'
 )
 ASSUMPTIONS = [
     "the oracle recomputes MSEDistance as mean((expit(a)-expit(b))**2) resp. mean((a-b)**2) on the samples' viability predictions (rtol 1e-12)",
@@ -147,8 +148,33 @@ def check_case(case):
         sc = case["screen"]
         tm, sm = S.space_mappings(sc["ns"], sc["nt"])
         screen = S.build_screen(sc, treatment_mapping=tm, sample_mapping=sm)
+        n0 = len(case["thetas"])
+        repeat_cut = 0
+        if case["cli"] and n0 >= 1 and n0 <= 8 and (n0 + case["n_chunks"] + len(case["order"])) % 3 == 0 and not case.get("xproc"):
+            # the first file of posterior samples is named twice on the command line: its samples take part twice (distance 0 between twins)
+            nf0 = max(1, min(case.get("theta_files", 1), n0))
+            repeat_cut = round(1 * n0 / nf0)
+            case = dict(case, thetas=list(case["thetas"]) + list(case["thetas"][:repeat_cut]), n_chunks=min(case["n_chunks"], 3), order=[c_ for c_ in case["order"] if c_ < min(case["n_chunks"], 3)] or [0])
+            if sorted(set(case["order"])) != list(range(case["n_chunks"])):
+                case["order"] = list(range(case["n_chunks"]))
         n = len(case["thetas"])
         holder = S.build_holder(case["thetas"]) if n else ThetaHolder(n_thetas=0)
+    compute_with = holder
+    if sc is not None and n >= 2 and not case["cli"] and (n + case["n_chunks"]) % 2 == 0:
+        # a collection that materialises its samples on request (backed by a parameter table): every get_theta() call hands out a
+        # new, short-lived object - any ThetaHolder subclass may do so
+        params_ = list(case["thetas"])
+
+        class OnDemand(ThetaHolder):
+            def __init__(self):
+                ThetaHolder.__init__(self, n_thetas=len(params_))
+
+            def get_theta(self, step_index):
+                if step_index < 0 or step_index >= len(params_):
+                    raise ValueError("step_index out of bounds")
+                return S.build_theta(params_[step_index])
+
+        compute_with = OnDemand()
     k = case["n_chunks"]
     if case["cli"]:
         case = dict(case, sigmoid=True)  # the CLI can only pass *required* constructor arguments: default metric
@@ -176,7 +202,7 @@ def check_case(case):
 
     paths = []
     try:
-        single = dc.calculate_pairwise_distance_matrix_on_predictions(thetas=holder, distance_metric=metric, data=screen, chunk_index=0, n_chunks=1)
+        single = dc.calculate_pairwise_distance_matrix_on_predictions(thetas=compute_with, distance_metric=metric, data=screen, chunk_index=0, n_chunks=1)
         require(single.is_complete(), "single.complete", "single-chunk matrix is not complete")
         dense1 = single.to_dense()
         require(dense1.shape == (n, n), "single.shape", "dense shape %r" % (dense1.shape,))
@@ -191,14 +217,18 @@ def check_case(case):
             screen_file = tmp.fresh("screen.h5")
             paths.append(screen_file)
             screen.save_h5(screen_file)
-            nf = max(1, min(case.get("theta_files", 1), n))
-            cuts = [round(i * n / nf) for i in range(nf + 1)]
+            n_files = n - repeat_cut
+            nf = max(1, min(case.get("theta_files", 1), n_files))
+            cuts = [round(i * n_files / nf) for i in range(nf + 1)]
             for a_, b_ in zip(cuts, cuts[1:]):
                 same_name = (case.get("odd_paths") or 0) % 3 == 1  # (chain files with equal base names in directories of their own)
                 tf = tmp.fresh("thetas.h5" if same_name else "thetas_%d.h5" % a_, odd=None if case.get("odd_paths") is None else case["odd_paths"] + 3 + a_, own_dir=same_name)
                 paths.append(tf)
                 S.build_holder(case["thetas"][a_:b_]).save_h5(tf)
                 theta_files.append(tf)
+            if repeat_cut:
+                require(cuts[1] == repeat_cut, "harness", "first file does not hold the repeated samples")
+                theta_files.append(theta_files[0])
         for c in range(k):
             p = tmp.fresh("dist_%d.h5" % c, odd=None if case.get("odd_paths") is None else case["odd_paths"] + c)
             paths.append(p)
@@ -216,7 +246,7 @@ def check_case(case):
                     with contextlib.redirect_stderr(io.StringIO()):
                         m = dc.calculate_pairwise_distance_matrix_on_predictions(thetas=holder, distance_metric=metric, data=screen, chunk_index=c, n_chunks=k, progress=True)
                 else:
-                    m = dc.calculate_pairwise_distance_matrix_on_predictions(thetas=holder, distance_metric=metric, data=screen, chunk_index=c, n_chunks=k)
+                    m = dc.calculate_pairwise_distance_matrix_on_predictions(thetas=compute_with, distance_metric=metric, data=screen, chunk_index=c, n_chunks=k)
                 m.save(p)
             chunk_files[c] = p
         loaded = [dc.ChunkedDistanceMatrix.load(chunk_files[c]) for c in case["order"]]
@@ -236,6 +266,17 @@ def check_case(case):
                 acc = acc.combine(dc.ChunkedDistanceMatrix.load(chunk_files[c_]))
             require(acc.is_complete(), "folded.complete", lambda: "chunks folded with combine() (%s fold of this process, order %r) hold %d of %d pairs" % (tag_, seq_, acc.current_index, pairs))
             require(np.array_equal(acc.to_dense(), dense1), "folded.equals_single", lambda: "chunks folded with combine() (%s fold, order %r) differ from the single-chunk matrix" % (tag_, seq_))
+        # ... and in other bracketings: a combine() result among the inputs of concat, a concat of concats
+        uniq_ = sorted(set(case["order"]), key=list(case["order"]).index)
+        if len(uniq_) >= 2:
+            ld_ = lambda cs: [dc.ChunkedDistanceMatrix.load(chunk_files[c_]) for c_ in cs]
+            cut_ = 1 + len(case["order"]) % (len(uniq_) - 1)
+            a_ = ld_(uniq_)
+            left_ = a_[0]
+            for m_ in a_[1:cut_]:
+                left_ = left_.combine(m_)
+            for tag_, g_ in (("combine_inside_concat", dc.ChunkedDistanceMatrix.concat([left_] + a_[cut_:])), ("concat_of_concats", dc.ChunkedDistanceMatrix.concat([dc.ChunkedDistanceMatrix.concat(ld_(uniq_[:cut_])), dc.ChunkedDistanceMatrix.concat(ld_(uniq_[cut_:]))]))):
+                require(g_.is_complete() and np.array_equal(g_.to_dense(), dense1), "assembled.bracketing." + tag_, lambda: "chunks %r combined as %s (split after %d) %s" % (uniq_, tag_, cut_, "are incomplete" if not g_.is_complete() else "differ from the single-chunk matrix"))
         dense = combined.to_dense()
         require(np.array_equal(combined.to_dense(), dense), "assembled.to_dense_repeatable", "to_dense gives another matrix the second time")
         require(np.array_equal(dense, dense1), "assembled.equals_single", lambda: "assembled %r != single-chunk %r (order %r)" % (dense.tolist(), dense1.tolist(), case["order"]))
@@ -274,9 +315,11 @@ def check_case(case):
     order = case["order"]
     repeated = len(order) > len(set(order))
     out_of_order = order != sorted(order)
-    labels = ["assembly", "thetas=%d" % n] + (["predictions>128MiB"] if sc is None and n * screen.size * 8 > 2**27 else [])
+    labels = ["assembly", "thetas=%d" % n] + (["samples-materialised-on-request"] if compute_with is not holder else []) + (["predictions>128MiB"] if sc is None and n * screen.size * 8 > 2**27 else [])
     if case["cli"]:
         labels.append("cli" if not case.get("xproc") else "one-process-per-chunk")
+        if repeat_cut:
+            labels.append("file-named-twice")
     if repeated:
         labels.append("repeated-chunk")
     if k > pairs:
